@@ -107,7 +107,11 @@ pub fn c05_instances(tier: Tier) -> Vec<Instance> {
                 i.fail_budget = if thorough { 2 } else { 1 };
                 i.fail_kinds = if total <= 16 { vec![0, 1, 2, 3] } else { vec![0, 3] };
                 // the clock is an input of the async read (90 s timeout): 30 s steps, never 90 s in a row
-                i.tick_budget = if imp == Impl::Tokio && seq.len() <= 2 { 1 } else { 0 };
+                // three steps in a row reach the 90 s read timeout: Err(Timeout), and nothing buffered is lost
+                // (single frames and pairs over {keep-alive, SMALL, unknown}; one step for the other pairs)
+                let to = seq.len() == 1 || (seq.len() == 2 && label.iter().all(|l| matches!(*l, "ka" | "small" | "unk")));
+                i.tick_budget = if imp == Impl::Tokio && seq.len() <= 2 { if to { 3 } else { 1 } } else { 0 };
+                i.allow_timeout = to;
                 i.storm_budget = if seq.len() <= 2 { 1 } else { 0 };
                 out.push(i);
             }
